@@ -38,6 +38,9 @@ def contexts(tier):
         (Ctx("file-scope:unsigned-long", PRE + ["unsigned", "long"], [";"], domain=SIGMA_D), m),
         (Ctx("file-scope:_Atomic(int)", PRE + ["_Atomic", "(", "int", ")"], [";"], domain=SIGMA_D), m),
         (Ctx("block", FN + ["int"], [";", "}"], domain=SIGMA_D), m),
+        (Ctx("block:struct", FN + ["struct", "y"], [";", "}"], domain=SIGMA_D + ["="]), m),
+        (Ctx("block:enum", FN + ["enum", "y"], [";", "}"], domain=SIGMA_D + ["="]), m - 1),
+        (Ctx("knr:struct", PRE + ["int", "x", "(", "T", ")", "struct", "y"], [";", "{", "}"], domain=SIGMA_D), m - 1),
         (Ctx("for-init", FN + ["for", "(", "int"], [";", ";", ")", ";", "}"], domain=SIGMA_D), m),
         (Ctx("parameter", PRE + ["void", "y", "(", "int"], [")", ";"], domain=SIGMA_D), n),
         (Ctx("parameter2", PRE + ["void", "y", "(", "T", "x", ","], [")", ";"], domain=SIGMA_D + ["char"]), m),
